@@ -139,6 +139,7 @@ type Run struct {
 	bystanderCancel context.CancelFunc
 	bystanderDone   chan struct{}
 	gcRounds        int
+	bulky           bool
 	mapperCalls     []*MapperCall
 	master          *simMaster
 	conn            *simConn
@@ -551,6 +552,16 @@ func Execute(t *testing.T, sc *Scenario, tape *Tape) (r *Run) {
 				r.BubbleDeadlock = msg
 				return
 			}
+			if strings.Contains(msg, "deadlock") {
+				for _, a := range r.Results {
+					if a.StepCapped {
+						// the run was abandoned at its step budget (inconclusive, see
+						// RunCase) and the teardown did not get everything unparked
+						r.BubbleDeadlock = msg
+						return
+					}
+				}
+			}
 			r.HarnessErr = fmt.Sprintf("bubble panic: %v", p)
 		}
 	}()
@@ -586,6 +597,11 @@ func (r *Run) controller() {
 	sc := r.sc
 	if sc.StepCap == 0 {
 		sc.StepCap = 30000
+		if n := packetCount(sc.Hist, sc.Start); n > 5000 {
+			// a bulk transaction of ten thousand and more events: a few steps per packet
+			sc.StepCap += 4 * n
+			r.bulky = true
+		}
 	}
 	r.newStreamer(sc.Start)
 	if sc.Bystander {
@@ -719,6 +735,9 @@ func (r *Run) segment(plan *AttemptPlan, avail int, dumping bool) int {
 	mode := plan.Seg
 	if mode == 4 {
 		mode = r.sch.N(4)
+	}
+	if r.bulky && mode >= 2 {
+		mode = 1 // (byte-sized pieces of a megabyte-sized stream only burn steps)
 	}
 	toEnd := avail
 	if dumping {
@@ -1393,7 +1412,7 @@ func (r *Run) abortAttempt() {
 	for _, c := range r.allCancels {
 		c()
 	}
-	for i := 0; i < 50; i++ {
+	for i := 0; i < 5000; i++ {
 		synctest.Wait()
 		h, m := r.parked()
 		if h != nil {
